@@ -14,6 +14,7 @@ import TdVerif.Lemmas.C16AssignMain
 import TdVerif.Lemmas.C16ShapeOps
 import TdVerif.Lemmas.C16Permute
 import TdVerif.Lemmas.C16Reshape
+import TdVerif.Lemmas.C16Nested
 
 namespace TdVerif.Props.C16
 open TdVerif.C16 TdVerif.C16.NT
@@ -267,6 +268,83 @@ example : (reshapeNT (.stack [.shared "a" [], .shared "b" [], .shared "c" [], .s
 example : ((reshapeNT (.stack [.shared "y" [3], .stack [.shared "a" [], .shared "b" [], .shared "c" []] 0] 0 : NT String) [3, 2]).toOption.bind
     (fun u => getAt u [1, 1])) = some "a" := by rfl
 example : ravel [1, 1] [3, 2] = 3 ∧ ravel [1, 0] [2, 3] = 3 := by decide
+
+/-! ### nested lists: `to_dict`, the memmap / pickle rebuild (`_from_list`), `torch.cat` (`_cat_non_tensor`) -/
+
+/-- `to_dict` of a stacked entry is the row-major nested list of its abstraction (what `TensorDict.to_dict` stores) -/
+theorem to_dict_commutes (dflt : O) (ms : List (NT O)) (d : Nat) (hw : wf (.stack ms d) = true) :
+    toDictNT (.stack ms d) = nestOf (getAt (.stack ms d)) dflt (shape (.stack ms d)) [] :=
+  tolist_row_major dflt (.stack ms d) hw
+
+/-- the memmap / pickle round trip of a NonTensorStack (`_memmap_` writes `tolist()`, `_load_memmap` rebuilds with
+`_from_list`): for an entry of rank ≥ 1 without zero-size dim whose payloads are atoms (not python lists), rebuilding from
+its nested list — with `ndim` given (`fuel = rank - 1`) or not (`fuel` large) — gives an entry of the same shape holding the
+same object at every position, whatever the representation of the original was. -/
+theorem from_list_roundtrip (dflt : O) (r : NT O) (fuel : Nat) (hw : wf r = true) (hr : shape r ≠ [])
+    (hpos : ∀ k ∈ shape r, 0 < k) (hf : (shape r).length ≤ fuel + 1) :
+    wf (fromListN fuel (tolist r).items) = true ∧ shape (fromListN fuel (tolist r).items) = shape r
+    ∧ ∀ c, inB c (shape r) = true → getAt (fromListN fuel (tolist r).items) c = some (.leaf ((getAt r c).getD dflt)) := by
+  rw [tolist_row_major dflt r hw]
+  cases hs : shape r with
+  | nil => exact absurd hs hr
+  | cons n s =>
+    rw [hs] at hpos hf
+    rw [nestOf_items]
+    obtain ⟨h1, h2, h3⟩ := fromListN_nestOf (getAt r) dflt s n fuel [] (hpos n (by simp)) (fun k hk => hpos k (by simp [hk]))
+      (by simp at hf ⊢; omega)
+    refine ⟨h1, h2, ?_⟩
+    intro c hc
+    cases c with
+    | nil => simp [inB] at hc
+    | cons i c' =>
+      obtain ⟨hi, hc'⟩ := (inB_cons_iff i c' n s).mp hc
+      simpa using h3 i c' hi hc'
+
+/-- PROVED WITNESS of the finding C16-memmap-sequence-payload: the nested list of an entry of batch [2] whose payloads are the
+LISTS [a, b] and [c, d] is rebuilt by `_from_list(data)` (no `ndim`, as `_load_memmap` calls it) as an entry of batch [2, 2]
+with payloads a, b, c, d; told the rank (`ndim = 1`) it keeps the two list payloads. -/
+theorem from_list_sequence_payload_counterexample :
+    let data : List (Nest String) := [.list [.leaf "a", .leaf "b"], .list [.leaf "c", .leaf "d"]]
+    shape (fromListN 3 data) = [2, 2] ∧ shape (fromListN 0 data) = [2]
+    ∧ getAt (fromListN 0 data) [1] = some (.list [.leaf "c", .leaf "d"])
+    ∧ getAt (fromListN 3 data) [1, 0] = some (.leaf "c") := by
+  refine ⟨by rfl, by rfl, by rfl, by rfl⟩
+
+/-- `torch.cat` of tensordicts on a non-tensor entry (`_cat_non_tensor`, repaired code), general branch: for entries that
+agree outside dim `d` (no zero-size dim), whatever their representations, the result is well formed, has the concatenated
+shape, and shows at every position the object the abstract concatenation along `d` (`catGetD`) puts there. -/
+theorem cat_commutes (dflt : O) (l : List (NT O)) (pre post : Shape) (hne : l ≠ [])
+    (hw : ∀ r ∈ l, wf r = true) (hsh : ∀ r ∈ l, ∃ n, 0 < n ∧ shape r = pre ++ n :: post)
+    (hpre : ∀ p ∈ pre, 0 < p) (hpost : ∀ p ∈ post, 0 < p) :
+    wf (catGeneral l pre.length) = true
+    ∧ shape (catGeneral l pre.length) = pre ++ sumN (l.map (fun r => (shape r).getD pre.length 0)) :: post
+    ∧ ∀ c, inB c (pre ++ sumN (l.map (fun r => (shape r).getD pre.length 0)) :: post) = true →
+        getAt (catGeneral l pre.length) c
+          = some (.leaf ((catGetD pre.length (l.map (fun r => (getAt r, (shape r).getD pre.length 0))) c).getD dflt)) := by
+  have key := catGeneral_spec dflt l pre post hne hw hsh hpre hpost
+  have hfuel : ((l.head?.map shape).getD []).length - 1 = pre.length + post.length := by
+    obtain ⟨r0, rest, rfl⟩ := List.exists_cons_of_ne_nil hne
+    obtain ⟨n, _, hs⟩ := hsh r0 (by simp)
+    simp [hs]
+  unfold catGeneral
+  rw [hfuel]
+  have e : (l.map (fun r => (getAt r, (shape r).getD pre.length 0))).map Prod.snd
+      = l.map (fun r => (shape r).getD pre.length 0) := by
+    rw [List.map_map]; rfl
+  obtain ⟨k1, k2, k3⟩ := key
+  rw [e] at k2 k3
+  exact ⟨k1, k2, k3⟩
+
+/-- … and the shared branch: items that are all one shared payload concatenate to one shared entry of the summed size -/
+theorem cat_shared [DecidableEq O] (o : O) (s : Shape) (rest : List (NT O)) (d : Nat)
+    (hall : rest.all (fun m => sharedPayload m == some o) = true) :
+    catNT (.shared o s :: rest) d
+      = .shared (.leaf o) (s.set d (sumN ((NT.shared o s :: rest).map (fun r => (shape r).getD d 0)))) := by
+  simp only [catNT]
+  rw [if_pos hall]
+
+-- the abstract concatenation picks the item by the cumulated sizes
+example : catGetD 1 [((fun c => some (c, "A")), 2), ((fun c => some (c, "B")), 3)] [0, 3, 1] = some ([0, 1, 1], "B") := by rfl
 
 -- `unperm` really is the inverse placement: `unperm [2,0,1] [a,b,c]` puts `a` at dim 2, `b` at dim 0, `c` at dim 1
 example : unperm [2, 0, 1] [7, 8, 9] = [8, 9, 7] := by decide
